@@ -317,7 +317,8 @@ def r4_brackets(ctx):
         a = [s for s in f.calls() if s.name in ACT]
         c = f.calls_to(callee)
         d = [s for s in f.calls() if s.name in DEA]
-        ok = a and c and d and f.dominates(a[0].b, c[0].b) and f.dominates(c[0].b, d[0].b)
+        # (the call may be conditional - e.g. skipped for an inactive module - but when it runs, it runs inside the bracket)
+        ok = a and c and d and all(f.dominates(a[0].b, x.b) and a[0].b != x.b and any(f.postdominates(y.b, x.b) and y.b != x.b for y in d) for x in c)
         ctx.check(bool(ok), 'activate-call-deactivate:%s' % k.split('::')[-2], 'the module callback runs between activate and deactivate', f.where())
 
 
